@@ -5,6 +5,7 @@ behaviour no model exhibits — see DESIGN.md).
 -/
 import RaftVerif.Lemmas.Majority
 import RaftVerif.Lemmas.StepInv
+import RaftVerif.Lemmas.ReplSteps
 
 namespace Raft
 namespace C17
@@ -93,3 +94,6 @@ end Raft
 #print axioms Raft.C17.single_voter_commits
 #print axioms Raft.C17.follower_timeout_starts_election
 #print axioms Raft.selected_ge_of_majority
+#print axioms Raft.Repl.probe_decreases
+#print axioms Raft.Repl.faulty_follower_detected
+#print axioms Raft.Repl.match_index_sound
